@@ -21,6 +21,27 @@
 #include <ucontext.h>
 #include <signal.h>
 #include "prng.h"
+#include <stdarg.h>
+#include <sys/personality.h>
+
+// ---- determinism: everything the allocator could observe from outside is a function of the seed ----
+// (compiled with -Dclock_gettime=verif_clock_gettime -Dsyscall=verif_syscall, see tools/conc.py; main() switches
+// address-space randomisation off and re-executes itself)
+static long steps = 0;
+int verif_clock_gettime(clockid_t id, struct timespec* ts) {     // virtual clock: 1 microsecond per atomic step
+  (void)id; ts->tv_sec = 1000 + steps / 1000000; ts->tv_nsec = (steps % 1000000) * 1000; return 0;
+}
+#undef syscall
+extern long syscall(long nr, ...);
+long verif_syscall(long nr, ...) {                                // getrandom is served from a fixed stream
+  va_list ap; va_start(ap, nr);
+  long a0 = va_arg(ap, long), a1 = va_arg(ap, long), a2 = va_arg(ap, long), a3 = va_arg(ap, long), a4 = va_arg(ap, long), a5 = va_arg(ap, long);
+  va_end(ap);
+#ifdef SYS_getrandom
+  if (nr == SYS_getrandom) { static uint64_t x = 0x243F6A8885A308D3ull; uint8_t* b = (uint8_t*)a0; for (long i = 0; i < a1; i++) { x = x * 6364136223846793005ull + 1442695040888963407ull; b[i] = (uint8_t)(x >> 56); } return a1; }
+#endif
+  return syscall(nr, a0, a1, a2, a3, a4, a5);
+}
 
 #define MAXT 6
 #define NSLOT 96
@@ -29,7 +50,7 @@
 typedef struct { ucontext_t ctx; char* stack; int alive; int exited; mi_heap_t* defheap; int idx; long ops_done; } vt_t;
 static vt_t vts[MAXT];
 static int cur = 0, nthreads = 3, sched_on = 0, do_log = 0;
-static long steps = 0, max_steps = 4000000, nviol = 0, spurious = 0, switches = 0;
+static long max_steps = 4000000, nviol = 0, spurious = 0, switches = 0;
 static prng_t G;       // scheduler choices
 static prng_t GP;      // program choices
 static int mode = 0;   // 0 tfree, 1 exit, 2 heap, 3 prodcons
@@ -422,6 +443,9 @@ static bool count_visitor(const mi_heap_t* heap, const mi_heap_area_t* area, voi
 
 int main(int argc, char** argv) {
   if (argc < 5) { fprintf(stderr, "usage: s_conc <tfree|exit|heap|lock|lockheap|prodcons> <seed> <nthreads> <nops> [log]\n"); return 2; }
+  if (!(personality(0xffffffff) & ADDR_NO_RANDOMIZE) && !getenv("VERIF_NO_REEXEC")) {     // fixed mmap addresses: re-execute without ASLR
+    personality(personality(0xffffffff) | ADDR_NO_RANDOMIZE); setenv("VERIF_NO_REEXEC", "1", 1); execv("/proc/self/exe", argv);
+  }
   lockfmt = !strcmp(argv[1], "lock") || !strcmp(argv[1], "lockheap");
   mode = (!strcmp(argv[1], "tfree") || !strcmp(argv[1], "lock")) ? 0 : !strcmp(argv[1], "exit") ? 1 : !strcmp(argv[1], "prodcons") ? 3 : 2;
   for (int i = 0; i < MAXPG; i++) pg_owner[i] = -1;
